@@ -104,6 +104,20 @@ def corners_rule(run):
                 "(%d of 8 end-point comparisons found): the rails and rungs of a ladder are turned into one rectangle" % len(tested))
 
 
+def recognition_roots(prog):
+    roots = []
+    for fn in ("endorse_rect", "endorse_rounded_rect"):
+        ps = [p for p in prog.bodies if p.endswith("cell_buffer::endorse::" + fn)]
+        mine = []
+        for p in ps:
+            for _, t in prog.calls(p):
+                n = Program.callee_name(t)
+                if re.search(r"cell_buffer::endorse::\w+$", n) and n in prog.bodies and str(prog.bodies[n].get("vis")) != "Public" and n not in mine:
+                    mine.append(n)
+        roots.extend(m for m in mine if m not in roots)
+    return roots
+
+
 def style_blind_rule(run):
     """R2 [N]: recognising a box does not look at the stroke style.  The statement lets the sides of a box be
     dashed in parts (`:` `!` stretches, `~` edges) and still demands one rect; the dashed flag only selects
@@ -112,8 +126,10 @@ def style_blind_rule(run):
     equality (their `==` includes the dashed flag) or read `is_broken` for anything but copying it into a
     new line."""
     prog = run.prog
-    roots = [q for q in prog.bodies if re.search(r"cell_buffer::endorse::(is_rect|is_rounded_rect)$", q)]
-    if len(roots) != 2:
+    # the deciding functions: the private functions of the endorse module that endorse_rect / endorse_rounded_rect call
+    # (is_rect / is_rounded_rect today; found through the call graph, so a rename or a changed return type is not an event)
+    roots = recognition_roots(prog)
+    if len(roots) < 2:
         run.missing("C05.R2", "endorse::is_rect / is_rounded_rect")
         return
     seen, work, par = set(), list(roots), {}
@@ -334,19 +350,19 @@ def run(run):
             run.bad("C05.A1", "rect-dashed/%s" % fn, where(b), "%s: the dashed flag is `%s`, expected fragments.iter().any(is_broken)" % (fn, expr_str(br)[:120]))
         if rounded:
             r = av["radius"]
-            okr = r[0] == "call" and r[1].endswith("expect") and strip(r[2][0])[0] == "field" and strip(r[2][0])[2][-1:] == ("1",) and \
-                strip(strip(r[2][0])[1])[0] == "call" and strip(strip(r[2][0])[1])[1].endswith("endorse::is_rounded_rect")
-            irr = [q for q in prog.bodies if q.endswith("cell_buffer::endorse::is_rounded_rect")]
-            okq = False
-            if irr:
-                for x in Expr(prog, irr[0]).returns():
-                    x = strip(x)
-                    if x[0] == "agg" and len(x[3]) == 2:
-                        second = strip(x[3][1][1])
-                        if second[0] == "agg" and second[2] == "Some":
-                            v = strip(second[3][0][1])
-                            if v[0] == "field" and v[2][-1:] == ("radius",) and mentions(v, lambda z: z[0] == "call" and z[1].endswith("Fragment::as_arc")):
-                                okq = True
+            # whatever the recognising helper returns (a (bool, Option<f32>) pair, an Option<f32>, ..) and however it is
+            # unpacked (expect, `?`, if let): with the helper inlined every alternative of the value is the `radius` field
+            # of an arc taken from the group
+            def unwrapped(e_):
+                e_ = strip(e_)
+                while e_[0] == "call" and re.search(r"Option::<T>::(expect|unwrap)$", e_[1]) and e_[2]:
+                    e_ = ("field", e_[2][0], ("@Some", "0"))
+                return e_
+            rr = strip(simplify(unwrapped(strip(simplify(inline_calls(prog, unwrapped(r), keep=r"Fragment::as_arc$", depth=2))))))
+            alts = [strip(a) for a in (rr[1] if rr[0] == "phi" else [rr])]
+            from_arc = lambda v: v[0] == "field" and v[2][-1:] == ("radius",) and \
+                mentions(v, lambda z: z[0] == "call" and z[1].endswith("Fragment::as_arc") and mentions(z, lambda y: y[0] == "param" and y[1] == 1))
+            okr = okq = bool(alts) and all(from_arc(a) for a in alts)
             if okr and okq:
                 run.ok("C05.A1", "rounded rect radius = radius of an arc of the group", where(b))
             else:
